@@ -8,7 +8,7 @@ reported as a failure (CRASH rc=124) with the case (matrix + partition) as repla
 The MPI harness runs in binary64 on small dyadic inputs, so every operation is exact and the
 printed rationals are compared byte for byte with
   * the rank-by-rank Coq model of Dist.v (split, comm pattern, spmv, residual, inner product,
-    scale, sort_rows, remote rows, Gershgorin) and
+    scale, sort_rows, transpose in storage order, remote rows, Gershgorin) and
   * the SERIAL kernels of Kernels.v/MatOps.v applied to the global matrix and cut along the
     partition (transpose, product, (A^T)x, (AB)x, copy to another backend).
 Oracles: Gershgorin estimate = serial value on every rank ("gersh_spec"); power-method estimate
@@ -18,7 +18,8 @@ import random
 from fractions import Fraction as F
 from vcheck import fmt_q, fmt_vec, fmt_ivec, fmt_crs
 import gen
-from props.common import diff_run, account
+from props.common import account
+from props.mpi_common import run_mpi
 
 DRIVERS = ["mpi_algebra"]
 MODEL = "dist"
@@ -29,8 +30,8 @@ ASSUMPTIONS = [
     "every receive names source, tag and its own buffer slice) -- covered by the mpirun runs under timeout only",
     "the MPI harness runs the templates at double on small dyadic inputs (all operations exact in binary64) and prints exact "
     "rationals; the templates at double execute the same algorithm as at an exact field",
-    "transpose / product / remote-row exchange / copy between backends: compared with the SERIAL Coq kernels on the assembled "
-    "matrix (correspondence), no rank-by-rank Coq model yet",
+    "product / copy between backends: compared with the SERIAL Coq kernels on the assembled matrix (correspondence), no "
+    "rank-by-rank Coq model; remote-row exchange: rank-by-rank model compared, no theorem",
     "power-method spectral radius: only rank-consistency (bitwise identical on all ranks) is checked",
 ]
 TRUSTED_BASE = [
@@ -75,6 +76,7 @@ def cases(tier, seed):
         B = gen.dycrs(r, m, k, dups=(r.random() < 0.2))
         b = fmt_crs(m, k, B)
         add(np_, "product", a, RP, CP, b, KP)
+        add(np_, "product_s", a, RP, CP, b, KP)
         if heavy:
             add(np_, "spmv2", a, RP, CP, fmt_vec(x), fmt_vec(gen.dyvec(r, m)))
             add(np_, "rrows", a, RP, CP, b, KP)
@@ -141,11 +143,19 @@ def run(ctx, cases_override=None):
     for np_ in sorted(groups):
         ls = groups[np_]
         shards = {1: 4, 2: 3, 3: 2, 4: 2}.get(np_, 1) if len(ls) > 50 else 1
-        prefix = MPIRUN + [str(np_)]
         modelled = [l for l in ls if l.split(" ", 2)[1] != "power"]
         unmodelled = [l for l in ls if l.split(" ", 2)[1] == "power"]
-        f, impl, model = diff_run(ctx, "mpi_algebra", modelled, shards=shards, prefix=prefix, timeout=TIMEOUT + 30,
-                                  env={"OMP_NUM_THREADS": "1"})
+        impl = run_mpi(ctx, ctx["cpp"]["mpi_algebra"], modelled, np_, MPIRUN, shards=shards, timeout=TIMEOUT + 30,
+                       env={"OMP_NUM_THREADS": "1"})
+        model = ctx["run_driver"](ctx["model"], modelled)
+        account(ctx, modelled, impl)
+        f = []
+        for l in modelled:
+            cid, op = l.split(" ", 2)[:2]
+            a, b = impl.get(cid), model.get(cid)
+            if a != b:
+                ctx["stats"]["mismatches"] += 1
+                f.append(dict(kind="counterexample", case=l, impl=a, model=b, op=op, size=len(l)))
         crashed = any((v or "").startswith("CRASH") for v in impl.values())
         for x in f:
             if x["impl"] is None and crashed: continue       # not run: an earlier case of the shard hung/crashed
@@ -171,8 +181,8 @@ def run(ctx, cases_override=None):
                                               "ranks and equal to the serial value (%d ranks)" % np_))
         # ---- oracle: power-method estimate bitwise identical on all ranks
         if unmodelled:
-            impl2 = ctx["run_driver"](ctx["cpp"]["mpi_algebra"], unmodelled, env_extra={"OMP_NUM_THREADS": "1"},
-                                      prefix=prefix, timeout=TIMEOUT + 30, shards=1)
+            impl2 = run_mpi(ctx, ctx["cpp"]["mpi_algebra"], unmodelled, np_, MPIRUN, shards=1, timeout=TIMEOUT + 30,
+                            env={"OMP_NUM_THREADS": "1"})
             account(ctx, unmodelled, impl2, nontrivial=lambda op, p, o: bool(o) and o.startswith("bits:"))
             for l in unmodelled:
                 cid, op = l.split(" ", 2)[:2]
